@@ -1,6 +1,6 @@
 (* C04 correspondence runner: evaluates every modelled structure on one bit string and a list of queries, and the
    BitVector state machine on an operation history.
-   Bits are given run-length encoded; a query is (op, arg); the observation is a Z, -1 for None/Err.
+   Bits are given run-length encoded; `extra` = number of storage words beyond ceil(len/64) (all zero: left behind by pop); a query is (op, arg); the observation is a Z, -1 for None/Err.
    op 0..10: as in Model.run_queries (SE512 rank1 rank0 select1 select0 get, FewOne rank1 select1 get,
              interleaved-256 rank1 rank0 get);
    op 11 interleaved-256 select1 (select cache on, the given sample rate), 12 interleaved-256 select0,
@@ -24,17 +24,18 @@ From ZV.Common Require Import Run.
 From ZV.C04 Require Import Spec Model ModelIL ModelGen ModelILSel ModelSE256 ModelSimple ModelFew2 ModelBV ModelTrivial ModelMixed.
 Import ListNotations.
 
-Definition run_queries2 (bs : list bool) (sp0 sp1 : bool) (rate olen : N) (qs : list (N * N)) : list Z :=
+Definition run_queries2 (bs : list bool) (sp0 sp1 : bool) (rate olen extra : N) (qs : list (N * N)) : list Z :=
   let s := build bs sp0 sp1 in
   let f := few_build bs in
   let il := il_build bs in
   let ila := ils_build bs true (N.to_nat rate) in
   let ilb := ils_build bs false (N.to_nat rate) in
-  let s2 := se256_build bs sp0 sp1 in
-  let sm := simple_build bs in
+  let ex := N.to_nat extra in
+  let s2 := se256_build bs ex sp0 sp1 in
+  let sm := simple_build bs ex in
   let fz := fz_build bs in
   let ad := adaptive_build bs in
-  let mx := mx_build bs (N.to_nat olen) in
+  let mx := mx_build bs ex (N.to_nat olen) in
   let sz := length bs in
   let md := md_build [bs; map negb bs] in
   let md_rank := fun (i p : nat) => match md with Some m => Z.of_nat (nth i (md_bulk_rank m [p; p]) O) | None => (-1)%Z end in
@@ -127,13 +128,13 @@ Definition run_queries2 (bs : list bool) (sp0 sp1 : bool) (rate olen : N) (qs : 
 (* one generated case: either a bit string with queries, or a BitVector history
    (start: new or with_size(n, v); ops (opcode, index, bit); expected observations, final blocks(), final len()) *)
 Inductive c04case :=
-  | RS (runs : list (bool * N)) (sp0 sp1 : bool) (rate olen : N) (qs : list (N * N)) (expect : list Z)
+  | RS (runs : list (bool * N)) (sp0 sp1 : bool) (rate olen extra : N) (qs : list (N * N)) (expect : list Z)
   | BV (init_size : N) (init_val use_init : bool) (ops : list (N * N * N))
        (expect : list Z) (expect_blocks : list N) (expect_len : N).
 
 Definition case_ok (c : c04case) : bool :=
   match c with
-  | RS runs sp0 sp1 rate olen qs expect => eqb_lz (run_queries2 (expand runs) sp0 sp1 rate olen qs) expect
+  | RS runs sp0 sp1 rate olen extra qs expect => eqb_lz (run_queries2 (expand runs) sp0 sp1 rate olen extra qs) expect
   | BV n v u ops expect eb el =>
       let '(o, bl, ln) := bv_run_case n v u ops in
       eqb_lz o expect && eqb_ln bl eb && N.eqb ln el
